@@ -7,6 +7,14 @@
    permutation argument).  Definitions only. *)
 From Regal Require Export Base.PathModel.
 
+(* ---- clean absolute paths as component lists (specification vocabulary) ----
+   cpath [a;b] = "/a/b", cpath [] = "/", rpath [a;b] = "a/b"; a regular component is a
+   non-empty name without separator other than "." and "..". *)
+Definition regular (c : str) : Prop :=
+  c <> [] /\ ~ In SLASH c /\ c <> [DOT] /\ c <> dotdot.
+Definition cpath (cs : list str) : str := SLASH :: join [SLASH] cs.
+Definition rpath (cs : list str) : str := join [SLASH] cs.
+
 Section Assoc.
   Context {V : Type}.
   Definition amap := list (str * V).
@@ -104,3 +112,30 @@ Arguments pv_files {C}. Arguments pv_modified {C}. Arguments pv_deleted {C}. Arg
 Arguments new_provider {C}. Arguments pv_put {C}. Arguments pv_delete {C}.
 Arguments pv_rename {C}. Arguments pv_rename_pinned {C}. Arguments disk_occupied {C}.
 Arguments RenOk {C}. Arguments RenNotFound {C}. Arguments RenConflict {C}.
+
+(* ---------------------------------------------------------------- specification: invariant *)
+(* What relates the provider to the map [files0] it was loaded with and to the paths [disk] that
+   exist while the fixer runs; the command's commit relies on exactly these facts. *)
+Section ProviderSpec.
+  Variable C : Type.
+  Variable files0 : amap C.
+  Variable disk : list str.
+
+  Record pinv (p : provider C) : Prop := {
+    inv_nodup : NoDup (akeys (pv_files p));
+    inv_mod_in : forall f, In f (pv_modified p) -> In f (akeys (pv_files p));
+    inv_untouched : forall f, In f (akeys (pv_files p)) -> ~ In f (pv_modified p) ->
+                              aget (pv_files p) f = aget files0 f;
+    inv_gone : forall f, In f (akeys files0) -> ~ In f (akeys (pv_files p)) -> In f (pv_deleted p);
+    inv_del : forall f, In f (pv_deleted p) -> In f (akeys (pv_files p)) -> In f (pv_modified p);
+    inv_disk : forall f, In f (pv_modified p) -> In f disk -> In f (akeys files0);
+    inv_del_disk : forall f, In f (pv_deleted p) -> In f disk -> In f (akeys files0);
+    inv_pvdisk : pv_disk p = disk;
+    inv_nd_mod : NoDup (pv_modified p);
+    inv_nd_del : NoDup (pv_deleted p) }.
+End ProviderSpec.
+Arguments inv_nodup {C files0 disk p}. Arguments inv_mod_in {C files0 disk p}.
+Arguments inv_untouched {C files0 disk p}. Arguments inv_gone {C files0 disk p}.
+Arguments inv_del {C files0 disk p}. Arguments inv_disk {C files0 disk p}.
+Arguments inv_del_disk {C files0 disk p}. Arguments inv_pvdisk {C files0 disk p}.
+Arguments inv_nd_mod {C files0 disk p}. Arguments inv_nd_del {C files0 disk p}.
